@@ -21,7 +21,7 @@ from tools import common, shroudrun
 LEVEL = "proof"
 MANIFEST = dict(
     category="proof",
-    text="Lean 4 theorems (73, all axioms within propext/Classical.choice/Quot.sound) on a model of the Fortran wrapper path. "
+    text="Lean 4 theorems (79, all axioms within propext/Classical.choice/Quot.sound) on a model of the Fortran wrapper path. "
          "(1) Shape lemmas, for all values, lengths and extents, of the trip of one argument or result through Fortran pre_call, the "
          "bind(C) actuals per buf_arg, the bufferify or CFI C wrapper, the library, C post_call, storage association and Fortran "
          "post_call, for 31 kinds: logical<->bool in/out/inout; scalars by value; pointer/array pass-through and allocatable out arrays; "
@@ -37,6 +37,10 @@ MANIFEST = dict(
          "the regenerated probe of wrapc.set_fmt_fields gives shape[i] = dimension i and size = product (ctx_size_is_product). "
          "(2b) Reachability under the generic name: every member of an emitted generic interface is guarded by exactly its own cpp_if "
          "(generic_member_own_condition); assumed-rank variants are exactly the ranks F_assumed_rank_min..max (assumed_rank_variants). "
+         "(2c) Interface attributes and C-side dereference: the bind(C) interface is PURE only for +pure functions or const member "
+         "functions with all-in arguments (pure_only_when_licensed, not_pure_without_licence); `&` is applied to a C wrapper parameter "
+         "exactly for by-value declarations (c_addr_iff_by_value), so a struct by value, pointer or reference reaches the library as the "
+         "caller's struct and comes back modified through pointer/reference (struct_pass_through; `&` on a pointer parameter is undefined). "
          "(3) Assembly for all parameter lists: declaration order, this first, hidden/implied dropped from the API and supplied to C; "
          "implied expressions (size/len/len_trim/type/true/false/arithmetic) evaluate to the caller's own inquiry values and type(a) to the "
          "wrapped function's own declaration; routing through _PTR_F_C_index / _PTR_C_CXX_index chains, default-argument clones are "
@@ -58,7 +62,8 @@ MANIFEST = dict(
          "results, the non-bufferify std::string entries (plain C API: C02).",
     technique="Lean 4 proof (interpreter over regenerated op tables, induction over parameter / clone / generic lists, decide +kernel table "
               "theorems, composition with C10 lemmas) + differential correspondence + compile-and-run oracle (instrumented C and C++ "
-              "subject libraries, boundary values and sizes, every modelled kind executed per run, {c, c++} x {F_CFI} x {debug}, ASan)",
+              "subject libraries, boundary values and sizes, every modelled kind executed per run, {c, c++} x {F_CFI} x {debug}, ASan; "
+              "an -O2 build with repeated calls of counter functions; builds with a guard macro undefined and defined)",
 )
 MODULES = ["ShroudVerif.Props.C01"]
 THEOREMS = {
@@ -94,7 +99,8 @@ PARTIAL = ["+cdesc arguments (f/c_native_*_cdesc, c_void_*_cdesc) and f_native_*
            "the CFI_allocate forms (c_*_result_cfi_allocatable) are opaque",
            "std::vector<std::string> out / inout: C wrapper modelled, composed call proved undefined (vector_string_out_fortran_undefined)",
            "capsule arguments (owner(caller) pointer results: f_native_*_result_buf_pointer_caller; C06)",
-           "struct conversion casts (c_struct*), shadow (class instance) arguments beyond the this-argument position",
+           "struct RESULTS (c_struct_result cast) and shadow (class instance) arguments beyond the this-argument position; struct "
+           "ARGUMENTS are modelled (structArg)",
            "non-bufferify std::string entries (c_string_*_in/out/inout: strcpy forms, plain C API: C02)",
            "std::vector, T** out, context results, char**, vector<string> have no _cfi entry (theorem context_kinds_have_no_cfi_entry): "
            "no F_CFI-independence statement for them; arguments take the buf entries under F_CFI (fix b7285e7), context RESULTS with "
